@@ -153,3 +153,32 @@ Fixpoint tag_clash_free (t : ty) : bool :=
   | _ => true
   end.
 
+
+(** ** C03: a stop answer ends the work *)
+
+(** index of the first call at or after position [k] that creates an error value *)
+Fixpoint first_creating_from (tr : list call) (i k : N) : option N :=
+  match tr with
+  | [] => None
+  | c :: r => if (k <=? i)%N && creates c then Some i else first_creating_from r (N.succ i) k
+  end.
+
+(** from position [j] on, every call hands the error of the previous call over to an enclosing
+    container: [merge(_, other = previous call, _)] *)
+Fixpoint handovers_from (tr : list call) (i j : N) : bool :=
+  match tr with
+  | [] => true
+  | c :: r =>
+    (if (j <? i)%N then match c with CMerge _ _ _ o _ => N.eqb o (N.pred i) | _ => false end else true)
+    && handovers_from r (N.succ i) j
+  end.
+
+(** the scripted run, whose answers are all Break from call [k] on: once a report (or a merge)
+    at position j >= k has been answered, only hand-overs follow and the last one is returned *)
+Definition c03_tail_ok (k : N) (r : res) (tr : list call) : bool :=
+  match first_creating_from tr 0 k with
+  | None => true            (* no decision was taken at or after k: nothing to check *)
+  | Some j =>
+    handovers_from tr 0 j
+    && match r with RErr e => N.eqb e (N.pred (N.of_nat (List.length tr))) | _ => false end
+  end.
